@@ -32,6 +32,8 @@ pub enum Op {
     LockTry = 12,
     Unlock = 13,
     Misc = 14,
+    /// right after a write-type operation (publication visible, what follows not yet done)
+    After = 15,
 }
 
 #[allow(unused_variables)]
@@ -97,6 +99,16 @@ pub fn point(op: Op, addr: usize) {
     }
 }
 
+/// schedule point right *after* a write-type operation, so that a thread can be
+/// preempted between a publication and the plain accesses that follow it
+#[inline]
+#[track_caller]
+pub fn after(addr: usize) {
+    if let Some(h) = hooks() {
+        h.point(Op::After, addr, Location::caller());
+    }
+}
+
 #[inline]
 pub fn probe(name: &'static str) {
     if let Some(h) = hooks() {
@@ -157,13 +169,16 @@ pub mod atomic {
                 #[track_caller]
                 pub fn store(&self, v: $val, o: Ordering) {
                     point(Op::Store, self.addr());
-                    self.0.store(v, o)
+                    self.0.store(v, o);
+                    after(self.addr());
                 }
                 #[inline]
                 #[track_caller]
                 pub fn swap(&self, v: $val, o: Ordering) -> $val {
                     point(Op::Swap, self.addr());
-                    self.0.swap(v, o)
+                    let r = self.0.swap(v, o);
+                    after(self.addr());
+                    r
                 }
                 #[inline]
                 #[track_caller]
@@ -175,7 +190,9 @@ pub mod atomic {
                     f: Ordering,
                 ) -> Result<$val, $val> {
                     point(Op::Cas, self.addr());
-                    self.0.compare_exchange(c, n, s, f)
+                    let r = self.0.compare_exchange(c, n, s, f);
+                    after(self.addr());
+                    r
                 }
                 #[inline]
                 #[track_caller]
@@ -190,7 +207,9 @@ pub mod atomic {
                     if weak_fail() {
                         return Err(self.0.load(f));
                     }
-                    self.0.compare_exchange_weak(c, n, s, f)
+                    let r = self.0.compare_exchange_weak(c, n, s, f);
+                    after(self.addr());
+                    r
                 }
             }
 
@@ -215,13 +234,17 @@ pub mod atomic {
                 #[track_caller]
                 pub fn fetch_add(&self, v: $val, o: Ordering) -> $val {
                     point(Op::Rmw, self.addr());
-                    self.0.fetch_add(v, o)
+                    let r = self.0.fetch_add(v, o);
+                    after(self.addr());
+                    r
                 }
                 #[inline]
                 #[track_caller]
                 pub fn fetch_sub(&self, v: $val, o: Ordering) -> $val {
                     point(Op::Rmw, self.addr());
-                    self.0.fetch_sub(v, o)
+                    let r = self.0.fetch_sub(v, o);
+                    after(self.addr());
+                    r
                 }
             }
             impl Default for $name {
@@ -239,19 +262,25 @@ pub mod atomic {
                 #[track_caller]
                 pub fn fetch_or(&self, v: $val, o: Ordering) -> $val {
                     point(Op::Rmw, self.addr());
-                    self.0.fetch_or(v, o)
+                    let r = self.0.fetch_or(v, o);
+                    after(self.addr());
+                    r
                 }
                 #[inline]
                 #[track_caller]
                 pub fn fetch_and(&self, v: $val, o: Ordering) -> $val {
                     point(Op::Rmw, self.addr());
-                    self.0.fetch_and(v, o)
+                    let r = self.0.fetch_and(v, o);
+                    after(self.addr());
+                    r
                 }
                 #[inline]
                 #[track_caller]
                 pub fn fetch_xor(&self, v: $val, o: Ordering) -> $val {
                     point(Op::Rmw, self.addr());
-                    self.0.fetch_xor(v, o)
+                    let r = self.0.fetch_xor(v, o);
+                    after(self.addr());
+                    r
                 }
             }
         };
@@ -307,13 +336,16 @@ pub mod atomic {
         #[track_caller]
         pub fn store(&self, v: *mut T, o: Ordering) {
             point(Op::Store, self.addr());
-            self.0.store(v, o)
+            self.0.store(v, o);
+            after(self.addr());
         }
         #[inline]
         #[track_caller]
         pub fn swap(&self, v: *mut T, o: Ordering) -> *mut T {
             point(Op::Swap, self.addr());
-            self.0.swap(v, o)
+            let r = self.0.swap(v, o);
+            after(self.addr());
+            r
         }
         #[inline]
         #[track_caller]
@@ -325,7 +357,9 @@ pub mod atomic {
             f: Ordering,
         ) -> Result<*mut T, *mut T> {
             point(Op::Cas, self.addr());
-            self.0.compare_exchange(c, n, s, f)
+            let r = self.0.compare_exchange(c, n, s, f);
+            after(self.addr());
+            r
         }
         #[inline]
         #[track_caller]
@@ -340,7 +374,9 @@ pub mod atomic {
             if weak_fail() {
                 return Err(self.0.load(f));
             }
-            self.0.compare_exchange_weak(c, n, s, f)
+            let r = self.0.compare_exchange_weak(c, n, s, f);
+            after(self.addr());
+            r
         }
     }
 
@@ -376,14 +412,17 @@ macro_rules! wrapper_points {
             #[track_caller]
             pub(crate) fn store(&self, v: $val, o: Ordering) {
                 point(Op::Store, self.verif_addr());
-                std::ops::Deref::deref(self).store(v, o)
+                std::ops::Deref::deref(self).store(v, o);
+                after(self.verif_addr());
             }
             #[inline]
             #[track_caller]
             #[allow(dead_code)]
             pub(crate) fn swap(&self, v: $val, o: Ordering) -> $val {
                 point(Op::Swap, self.verif_addr());
-                std::ops::Deref::deref(self).swap(v, o)
+                let r = std::ops::Deref::deref(self).swap(v, o);
+                after(self.verif_addr());
+                r
             }
             #[inline]
             #[track_caller]
@@ -396,7 +435,9 @@ macro_rules! wrapper_points {
                 f: Ordering,
             ) -> Result<$val, $val> {
                 point(Op::Cas, self.verif_addr());
-                std::ops::Deref::deref(self).compare_exchange(c, n, s, f)
+                let r = std::ops::Deref::deref(self).compare_exchange(c, n, s, f);
+                after(self.verif_addr());
+                r
             }
             #[inline]
             #[track_caller]
@@ -412,7 +453,9 @@ macro_rules! wrapper_points {
                 if weak_fail() {
                     return Err(std::ops::Deref::deref(self).load(f));
                 }
-                std::ops::Deref::deref(self).compare_exchange_weak(c, n, s, f)
+                let r = std::ops::Deref::deref(self).compare_exchange_weak(c, n, s, f);
+                after(self.verif_addr());
+                r
             }
         }
     };
@@ -427,13 +470,17 @@ impl crate::atomic::AtomicUsize {
     #[allow(dead_code)]
     pub(crate) fn fetch_add(&self, v: usize, o: Ordering) -> usize {
         point(Op::Rmw, self.verif_addr());
-        std::ops::Deref::deref(self).fetch_add(v, o)
+        let r = std::ops::Deref::deref(self).fetch_add(v, o);
+        after(self.verif_addr());
+        r
     }
     #[inline]
     #[track_caller]
     pub(crate) fn fetch_sub(&self, v: usize, o: Ordering) -> usize {
         point(Op::Rmw, self.verif_addr());
-        std::ops::Deref::deref(self).fetch_sub(v, o)
+        let r = std::ops::Deref::deref(self).fetch_sub(v, o);
+        after(self.verif_addr());
+        r
     }
 }
 
